@@ -13,6 +13,7 @@
 From Coq Require Import NArith List String Bool Arith.
 From V Require Import Base.UString Model.Registry Model.RegistryInit Gen.Regexes Spec.NamingSpec
                       Proofs.RegistryFacts Proofs.NamingFacts Proofs.C19Proofs.
+From V Require Model.SchemaTypes Spec.SchemaRefine Model.RegistryBuilder Proofs.C19Inherit.
 Import ListNotations.
 
 (* ---------------- tie to the current source ---------------- *)
@@ -268,6 +269,67 @@ Theorem invalid_prop_name_refused : forall vt r q n k,
   exists e, snd (decorate vt r q) = Failed e.
 Proof. exact invalid_prop_name_refused_lemma. Qed.
 Print Assumptions invalid_prop_name_refused.
+
+(* ---------------- custom types inherit: the class table a decorator builds ----------------
+   Model/RegistryBuilder.v gives, in the vocabulary of the schema family (SchemaTypes: slot, cls,
+   world), the table each Custom* decorator builds; it is compared with the live classes on every
+   run.  The generic theorems of the schema family are stated for an arbitrary class table / world;
+   what they ask of a table is shown here for every table the builder produces (the part evaluated
+   on the generated specification tables is in Props/C19Inherit.v).                              *)
+Module Inherit.
+Import SchemaTypes SchemaRefine RegistryBuilder C19Inherit.
+
+(* property names are distinct, whatever the user passes (OrderedDict) *)
+Theorem custom_table_names_distinct : forall bv k V n xt user, NoDup (names (custom_slots bv k V n xt user)).
+Proof. exact custom_slots_NoDup_lemma. Qed.
+Print Assumptions custom_table_names_distinct.
+
+(* nothing but the standard properties and the user's *)
+Theorem custom_table_only_standard_and_user : forall bv k V n xt user s,
+  In s (custom_slots bv k V n xt user) -> In s (standard_slots bv k V n xt) \/ In s user.
+Proof. exact custom_slots_In_lemma. Qed.
+Print Assumptions custom_table_only_standard_and_user.
+
+(* the standard properties around the user's, in the decorator's order *)
+Theorem object_table_shape : forall bv V n user,
+  NoDup (names user) -> (forall s, In s user -> ~ In (sname s) (standard_names CObject V)) ->
+  custom_slots bv CObject V n None user =
+  (sdo_pre V n ++ filter (fun s => negb (starts_x s)) user ++ sdo_post bv V ++ sort_by_name (filter starts_x user))%list.
+Proof. exact object_table_shape_lemma. Qed.
+Print Assumptions object_table_shape.
+
+Theorem observable_table_shape : forall bv V n user,
+  NoDup (names user) -> (forall s, In s user -> ~ In (sname s) (standard_names CObservable V)) ->
+  custom_slots bv CObservable V n None user = (sco_pre V n ++ user ++ sco_post V)%list.
+Proof. exact observable_table_shape_lemma. Qed.
+Print Assumptions observable_table_shape.
+
+(* whatever the user passes: a standard property whose name the user does not take is in the table as written *)
+Theorem standard_property_intact : forall bv k V n user s,
+  (k = CObject \/ k = CObservable) ->
+  In s (standard_slots bv k V n None) -> (forall t, In t user -> sname t <> sname s) ->
+  find_slot (custom_cls bv k V n None user (u "C")) (sname s) = Some s.
+Proof. exact standard_property_intact_lemma. Qed.
+Print Assumptions standard_property_intact.
+
+(* the table passes the refinement check of Spec/SchemaRefine.v against itself: header, no opaque
+   constraint, every value rule contained, every required property always present *)
+Theorem custom_refines_itself : forall bv k V n xt user cn,
+  forallb slot_kind_ok user = true ->
+  class_refine_failures (custom_cls bv k V n xt user cn) (custom_cls bv k V n xt user cn) = [].
+Proof. exact custom_refines_itself_lemma. Qed.
+Print Assumptions custom_refines_itself.
+
+(* the side condition of the generic C02 theorem survives the addition of a fresh class and its
+   registry row on both sides *)
+Theorem world_refines_add : forall w sp k V n c c',
+  world_refines w sp = true ->
+  find_class (wclasses sp) (cid c) = None -> cid c' = cid c ->
+  class_refine_failures c c' = [] ->
+  world_refines (world_add w k V n c) (world_add sp k V n c') = true.
+Proof. exact world_refines_add_lemma. Qed.
+Print Assumptions world_refines_add.
+End Inherit.
 
 (* ---------------- the hypotheses are satisfiable ---------------- *)
 
